@@ -25,6 +25,9 @@ pub trait HashObj {
     fn update_val(&mut self, d: &[u8]);
     fn update_mut(&mut self, d: &[u8]);
     fn fork(&self) -> Box<dyn HashObj>;
+    /// Clone::clone_from into an existing context of the same type that holds other pending bytes (`junk`, fed after an
+    /// optional reset): the destination's previous contents must not show
+    fn fork_into(&self, junk: &[u8], reset_first: bool) -> Box<dyn HashObj>;
     fn reset(&mut self);
     fn finalize_reset(&mut self, alt: bool) -> Vec<u8>;
     fn finalize(self: Box<Self>, alt: bool) -> Vec<u8>;
@@ -55,6 +58,15 @@ macro_rules! plain_obj {
             }
             fn fork(&self) -> Box<dyn HashObj> {
                 Box::new($wrap(self.0.clone()))
+            }
+            fn fork_into(&self, junk: &[u8], reset_first: bool) -> Box<dyn HashObj> {
+                let mut dst = self.0.clone();
+                if reset_first {
+                    dst.reset();
+                }
+                dst.update_mut(junk);
+                dst.clone_from(&self.0);
+                Box::new($wrap(dst))
             }
             fn reset(&mut self) {
                 self.0.reset()
@@ -176,6 +188,15 @@ macro_rules! blake_common {
         fn fork(&self) -> Box<dyn HashObj> {
             Box::new($wrap(self.0.clone()))
         }
+        fn fork_into(&self, junk: &[u8], reset_first: bool) -> Box<dyn HashObj> {
+            let mut dst = self.0.clone();
+            if reset_first {
+                dst.reset();
+            }
+            dst.update_mut(junk);
+            dst.clone_from(&self.0);
+            Box::new($wrap(dst))
+        }
         fn reset(&mut self) {
             self.0.reset()
         }
@@ -211,6 +232,15 @@ macro_rules! blake_dyn_obj {
             }
             fn fork(&self) -> Box<dyn HashObj> {
                 Box::new($wrap(self.0.clone(), self.1))
+            }
+            fn fork_into(&self, junk: &[u8], reset_first: bool) -> Box<dyn HashObj> {
+                let mut dst = self.0.clone();
+                if reset_first {
+                    dst.reset();
+                }
+                dst.update_mut(junk);
+                dst.clone_from(&self.0);
+                Box::new($wrap(dst, self.1))
             }
             fn reset(&mut self) {
                 self.0.reset()
@@ -567,7 +597,9 @@ impl HashCtx {
                     }
                 }
                 K_FORK => {
-                    t.ops.push(Op::new(h as u8, K_FORK));
+                    // a third of the forks go through Clone::clone_from into a context holding arg-1 other pending bytes
+                    let into = if rng.chance(1, 3) { 1 + rng.below(2 * b as u64 + 2) } else { 0 };
+                    t.ops.push(Op::new(h as u8, K_FORK).arg(into).off(rng.below(2) as u8).seed(rng.data_seed()));
                     fills.push(Some(fill));
                 }
                 K_INVALID => {
@@ -584,7 +616,9 @@ impl HashCtx {
                 }
                 K_RESET_KEY | K_FINRESET_KEY => {
                     let kl = key_len(rng, var.max_key);
-                    t.ops.push(Op::new(h as u8, k).arg(kl as u64).seed(rng.data_seed()).off(rng.below(2) as u8));
+                    // a quarter of the re-keys use a key RELATED to the one in use (off >> 1, see related_key)
+                    let rel = if rng.chance(1, 4) { 4 + rng.below(4) } else { 0 };
+                    t.ops.push(Op::new(h as u8, k).arg(kl as u64).seed(rng.data_seed()).off((rng.below(2) | (rel << 1)) as u8));
                     fills[h] = Some(if kl > 0 { b } else { 0 });
                 }
                 _ => {
@@ -644,6 +678,30 @@ impl HashCtx {
             }
         }
         t
+    }
+}
+
+/// key of a re-keying op: independent bytes, or (off >> 1 in 4..8) a key related to the one in use - the same bytes
+/// zero-extended or cut to the new length, all zeros of the new length, exactly the same key, the same key with its last
+/// bit flipped. Two keys that agree as zero-padded blocks but differ in length are different keys.
+pub fn related_key(prev: &[u8], op: &Op, max_key: usize) -> Vec<u8> {
+    let kl = (op.arg as usize).min(max_key);
+    match (op.off >> 1) % 8 {
+        4 => {
+            let mut k = prev.to_vec();
+            k.resize(kl, 0);
+            k
+        }
+        5 => vec![0u8; kl],
+        6 => prev.to_vec(),
+        7 => {
+            let mut k = prev.to_vec();
+            if let Some(l) = k.last_mut() {
+                *l ^= 1;
+            }
+            k
+        }
+        _ => crate::rng::data(op.seed, kl),
     }
 }
 
@@ -762,7 +820,13 @@ impl Scenario for HashCtx {
                     }
                     obs.hit("fault.fork_midstream");
                     let hd = hs[h].as_ref().unwrap();
-                    let o2 = guarded(|| hd.obj.fork()).map_err(|m| Violation::new("unexpected-panic", i, "clone", m, name))?;
+                    let o2 = if op.arg == 0 {
+                        guarded(|| hd.obj.fork()).map_err(|m| Violation::new("unexpected-panic", i, "clone", m, name))?
+                    } else {
+                        obs.hit("fault.fork_by_clone_from_into_a_used_context");
+                        let junk = crate::rng::data(op.seed | 16, ((op.arg - 1) as usize).min(4 * b));
+                        guarded(|| hd.obj.fork_into(&junk, op.off & 1 == 1)).map_err(|m| Violation::new("unexpected-panic", i, "clone_from", m, name))?
+                    };
                     let nh = Handle { obj: o2, key: hd.key.clone(), log: hd.log.clone(), refused: hd.refused, late_key: hd.late_key };
                     hs.push(Some(nh));
                 }
@@ -789,8 +853,10 @@ impl Scenario for HashCtx {
                     }
                     obs.hit("fault.reset_with_key");
                     let hd = hs[h].as_mut().unwrap();
-                    let kl = (op.arg as usize).min(var.max_key);
-                    let key = crate::rng::data(op.seed, kl);
+                    let key = related_key(&hd.key, op, var.max_key);
+                    if key.len() != hd.key.len() && (key.iter().all(|x| *x == 0) && hd.key.iter().all(|x| *x == 0) || key.starts_with(&hd.key) || hd.key.starts_with(&key)) {
+                        obs.hit("probe.rekey_with_a_key_that_differs_only_in_length_or_trailing_bytes");
+                    }
                     if let Err(m) = guarded(|| hd.obj.reset_with_key(&key)) {
                         if hd.refused {
                             obs.hit("observed.loud_failure_after_an_earlier_refusal");
@@ -813,7 +879,7 @@ impl Scenario for HashCtx {
                         obs.hit("probe.blake2_buffer_full_at_finalisation");
                     }
                     let alt = op.off & 1 == 1;
-                    let newkey = if op.k == K_FINRESET_KEY { crate::rng::data(op.seed, (op.arg as usize).min(var.max_key)) } else { Vec::new() };
+                    let newkey = if op.k == K_FINRESET_KEY { related_key(&hd.key, op, var.max_key) } else { Vec::new() };
                     let got = if op.k == K_FINRESET { guarded(|| hd.obj.finalize_reset(alt)) } else { guarded(|| hd.obj.finalize_reset_with_key(&newkey, alt)) };
                     let got = match got {
                         Ok(g) => g,
